@@ -42,19 +42,27 @@ Section Entry.
      f's section_order sends it elsewhere, and the sections f's section_order sends here *)
   Definition here (f : file_info) (section : string) : list string := sections_here f section sections.
 
-  (* the sub-group sections that follow k (none when the script references partial objects) *)
+  (* the sub-group sections listed under k in the segment (none when the script references partial
+     objects) *)
   Definition members (k : string) : list string :=
     if reference_partial cfg then [] else
     match lookup k (sections_subgroups seg) with Some others => others | None => [] end.
 
+  (* the sub-group sections that follow k for entry f: [members k] when f is not a group; none for a
+     group (its entries expand the sub-groups, each for itself, so the group adds no expansion of its
+     own) *)
+  Definition entry_members (f : file_info) (k : string) : list string :=
+    match fi_kind f with KGroup => [] | _ => members k end.
+
   (* the sections emitted for file f when the group of [section] is written, in order: every k of
-     [here f section] directly followed by the expansion of its sub-group members *)
+     [here f section] directly followed by the expansion of its sub-group members (for a group
+     entry: [here f section] alone) *)
   Inductive Expands (f : file_info) : string -> list string -> Prop :=
   | Exp_section section l : ExpandsKeys f (here f section) l -> Expands f section l
   with ExpandsKeys (f : file_info) : list string -> list string -> Prop :=
   | Exp_nil : ExpandsKeys f [] []
   | Exp_key k ks l1 l2 :
-      ExpandsMembers f (members k) l1 -> ExpandsKeys f ks l2 -> ExpandsKeys f (k :: ks) (k :: l1 ++ l2)
+      ExpandsMembers f (entry_members f k) l1 -> ExpandsKeys f ks l2 -> ExpandsKeys f (k :: ks) (k :: l1 ++ l2)
   with ExpandsMembers (f : file_info) : list string -> list string -> Prop :=
   | Exp_mnil : ExpandsMembers f [] []
   | Exp_member s ss l1 l2 :
@@ -118,7 +126,7 @@ Section Entry.
      sub-group member of such a section *)
   Inductive Reaches (f : file_info) : string -> string -> Prop :=
   | Reach_here a k : In k (here f a) -> Reaches f a k
-  | Reach_member a k s m : In k (here f a) -> In s (members k) -> Reaches f s m -> Reaches f a m.
+  | Reach_member a k s m : In k (here f a) -> In s (entry_members f k) -> Reaches f s m -> Reaches f a m.
 
   (* through a chain of entries (the groups above a leaf, then the leaf): each entry is asked for a
      section its parent emits *)
@@ -150,20 +158,19 @@ Definition input_section (s : stmt) : string := match s with SInput _ _ _ sect _
 
 (* ---------- well-formed section configuration (for "exactly once") ---------- *)
 
-(* the closure of a list of sections under sub-groups, as a relation *)
-Inductive InClosure (seg : segment) (U : list string) : string -> Prop :=
-| IC_base k : In k U -> InClosure seg U k
-| IC_member k others m :
-    InClosure seg U k -> lookup k (sections_subgroups seg) = Some others -> In m others -> InClosure seg U m.
+(* the closure of a list of sections under sub-groups (as the writer follows them: not at all when
+   the script references partial objects) *)
+Inductive InClosure (cfg : wcfg) (seg : segment) (U : list string) : string -> Prop :=
+| IC_base k : In k U -> InClosure cfg seg U k
+| IC_member k m : InClosure cfg seg U k -> In m (members cfg seg k) -> InClosure cfg seg U m.
 
 Definition configured (seg : segment) : list string := (alloc_sections seg ++ noload_sections seg)%list.
 
-(* sub-groups form a forest hanging below the configured sections: no member is itself configured,
-   no member has two leads or appears twice, no lead is listed twice, and following members always
-   terminates (rank decreases) *)
+(* sub-groups form a forest hanging below the configured sections: the configured sections are
+   pairwise different, no section is a member twice (of one or of two sub-groups), no member is itself
+   configured, and following members always terminates (a rank decreases) *)
 Definition WF_subgroups (seg : segment) : Prop :=
   NoDup (configured seg) /\
-  NoDup (map fst (sections_subgroups seg)) /\
   NoDup (flat_map snd (sections_subgroups seg)) /\
   (forall m, In m (flat_map snd (sections_subgroups seg)) -> ~ In m (configured seg)) /\
   exists rank : string -> nat,
@@ -173,6 +180,25 @@ Definition WF_subgroups (seg : segment) : Prop :=
 Definition WF_section_order (seg : segment) (f : file_info) : Prop :=
   NoDup (map fst (fi_section_order f)) /\
   forall k d, In (k, d) (fi_section_order f) -> In k (configured seg) /\ In d (configured seg).
+
+(* ... for an entry and, when it is a group, for every entry below it *)
+Fixpoint WF_section_order_deep (seg : segment) (f : file_info) : Prop :=
+  WF_section_order seg f /\
+  (fix all (l : list file_info) : Prop :=
+     match l with
+     | [] => True
+     | c :: r => WF_section_order_deep seg c /\ all r
+     end) (fi_files f).
+
+(* [part] is exactly one input statement for every section of the closure of the configured sections,
+   each naming the leaf (an included object / archive entry with the directory accumulated from the
+   groups above it, as listed by [leaves]) *)
+Definition leaf_once (rt : runtime) (cfg : wcfg) (seg : segment)
+           (leaf : file_info * string * list file_info) (part : list stmt) : Prop :=
+  let '(c, b, _) := leaf in
+  NoDup (map input_section part) /\
+  (forall k, In k (map input_section part) <-> InClosure cfg seg (configured seg) k) /\
+  Forall (fun st => names_leaf rt seg c b (input_section st) st) part.
 
 (* ---------- output sections of a script ---------- *)
 
